@@ -56,7 +56,9 @@ def write_evidence(h, pid, tier, seed, t, wall, n_viol, known_hits, errors, repo
         wall_s=round(wall, 3),
         violations=n_viol,
     )
-    d = os.path.join(HERE, "evidence")
+    # VERIF_EVIDENCE_DIR: only used by tools/run_seed.py so that runs against a mutated scratch tree
+    # never overwrite the evidence of /repo itself
+    d = os.environ.get("VERIF_EVIDENCE_DIR") or os.path.join(HERE, "evidence")
     os.makedirs(d, exist_ok=True)
     tmp = os.path.join(d, pid + ".json.tmp")
     with open(tmp, "w") as f:
